@@ -112,6 +112,7 @@ type Program struct {
 	Errors   []string
 	RepoRoot string
 	modsets  map[*types.Func]map[string]bool
+	notes    map[string]bool
 	checked  map[*Clause]bool
 	checkErr map[*Clause]error
 	CInfo    *types.Info
